@@ -164,8 +164,19 @@ CaseFind(v) == \E nd \in Nodes(v) : (nd.k = "str" /\ MatchS(nd.s)) \/ (nd.k = "t
 \* stringsearch.Finder for the tagged encoding of the literal "foo": a complete string value "foo"
 ExactFind(v) == \E nd \in Nodes(v) : nd.k = "str" /\ ExactS(nd.s)
 \* FieldNameFinder.Find: per value message, the type looked up by id; not a record => true;
-\* otherwise FieldNameIter over that (top-level) record type only
-FieldNameFind(v) == ~IsRec(v) \/ TypeHasName(v)
+\* otherwise findInType(tr, true) (fix f4f1b882f): the qualified-name iteration on the top-level
+\* record and on every record reached through an array, set, map (key and value), union or
+\* error -- records that are fields are covered by their parent's qualified names --
+\* recursing through the fields.  This works on TYPES: an empty array of records still has
+\* its element type (arr0).  The value tree stands for its type here.
+RECURSIVE FindInType(_, _)
+FindInType(v, checkNames) ==
+  LET u == Under(v) IN
+  CASE u.k = "rec" -> (checkNames /\ TypeHasName(u)) \/ \E i \in 1..Len(u.cs) : FindInType(u.cs[i].v, FALSE)
+    [] u.k \in {"arr", "set", "map", "union", "err"} -> \E i \in 1..Len(u.cs) : FindInType(u.cs[i].v, TRUE)
+    [] u.k = "arr0" -> MatchS(u.s)                    \* [] of type [{f:int64}]
+    [] OTHER -> FALSE
+FieldNameFind(v) == ~IsRec(v) \/ FindInType(v, TRUE)
 
 B(b) == IF b THEN "T" ELSE "F"
 RECURSIVE BF(_, _)
@@ -185,24 +196,11 @@ BF(p, v) ==
 \* ------------------------------------------------------------- the property
 Sound(p, v) == Eval(p, v) => BF(p, v) # "F"
 
-\* Known defect (reproduced on the real code, not repaired): FieldNameFinder looks only at
-\* the value's top-level record type, the evaluator's Walk also reaches record types that
-\* sit inside arrays, sets, maps, unions and errors.
-\* BelowContainer(v): some record node with a matching field name is reachable from v only
-\* through a non-record container.
-RECURSIVE HiddenName(_, _)
-HiddenName(v, hidden) ==      \* hidden: have we passed a non-record container on the way down
-  \/ hidden /\ TypeHasName(v)
-  \/ \E i \in 1..Len(v.cs) : HiddenName(v.cs[i].v, hidden \/ v.k \notin {"rec", "named"})
-RECURSIVE HasSearch(_)
-HasSearch(p) == IF p.op = "atom" THEN p.a = "search"
-                ELSE HasSearch(p.l[1]) \/ (p.r # <<>> /\ HasSearch(p.r[1]))
-Tainted(p, v) == HasSearch(p) /\ HiddenName(v, FALSE)
-
-OverApprox == \A p \in Preds : \A v \in Tops : ~Tainted(p, v) => Sound(p, v)
-\* the taint is needed and is not a blanket excuse
-TaintWitnessed == \E p \in Preds : \E v \in Tops : Tainted(p, v) /\ ~Sound(p, v)
-TaintNarrow == \E p \in Preds : \E v \in Tops : HasSearch(p) /\ ~Tainted(p, v) /\ Eval(p, v) /\ BF(p, v) = "T"
+\* (Until f4f1b882f FieldNameFinder looked only at the value's top-level record type and the
+\* property was false for records below arrays, sets, maps, unions and errors.)
+OverApprox == \A p \in Preds : \A v \in Tops : Sound(p, v)
+\* the shapes of that defect are in the table and are matched through the field-name finder
+HiddenCovered == \E v \in Tops : Eval(A("search"), v) /\ ~CaseFind(v) /\ ~TypeHasName(v) /\ BF(A("search"), v) = "T"
 NonVacuous ==
   /\ \E p \in Preds, v \in Tops : BF(p, v) = "F" /\ ~Eval(p, v)        \* frames are skipped
   /\ \E p \in Preds, v \in Tops : BF(p, v) = "T" /\ ~Eval(p, v)        \* strictly an over-approximation
@@ -251,11 +249,11 @@ PShape(p) == IF p.op = "atom" THEN p.a
              ELSE IF p.op = "not" THEN "not(" \o PShape(p.l[1]) \o ")"
              ELSE p.op \o "(" \o PShape(p.l[1]) \o "," \o PShape(p.r[1]) \o ")"
 
-\* one row per predicate: its text and, per value, eval/bf/tainted as a compact string "E B T"
+\* one row per predicate: its text and, per value, eval/bf as a compact string "E B"
 ValSeq == SetToSeq(Tops)
 Row(p) == [pred |-> PText(p), shape |-> PShape(p),
            cells |-> [i \in 1..Len(ValSeq) |->
-                        (IF Eval(p, ValSeq[i]) THEN "1" ELSE "0") \o BF(p, ValSeq[i]) \o (IF Tainted(p, ValSeq[i]) THEN "!" ELSE "")]]
+                        (IF Eval(p, ValSeq[i]) THEN "1" ELSE "0") \o BF(p, ValSeq[i])]]
 Export == OutFile = "" \/
           ( /\ ndJsonSerialize(OutFile, <<[values |-> [i \in 1..Len(ValSeq) |-> ZSON(ValSeq[i])]]>> \o SetToSeq({Row(p) : p \in Preds})) )
 
@@ -308,8 +306,7 @@ ASSUME FoldNonVacuous
 ASSUME FoldExport
 
 ASSUME OverApprox
-ASSUME TaintWitnessed
-ASSUME TaintNarrow
+ASSUME HiddenCovered
 ASSUME NonVacuous
 ASSUME Export
 
